@@ -199,7 +199,55 @@ func (w *World) Method(pkg, typ, name string) *ssa.Function {
 			return w.Prog.FuncValue(m)
 		}
 	}
+	// private helpers may be renamed: fall back to their role, given as a signature that is unique on the type
+	if sig, ok := roleSigs[pkg+"."+typ+"."+name]; ok {
+		var found *ssa.Function
+		cnt := 0
+		for i := 0; i < n.NumMethods(); i++ {
+			m := n.Method(i)
+			s := m.Type().(*types.Signature)
+			if sigKey(s) == sig {
+				found = w.Prog.FuncValue(m)
+				cnt++
+			}
+		}
+		if cnt == 1 {
+			fnAlias[found] = "(*" + pkg + "." + typ + ")." + name
+			return found
+		}
+	}
 	return nil
+}
+
+// fnAlias gives functions that were resolved by role the name they have on the pinned tree, so that
+// obligation keys and access paths do not change when a private helper is renamed.
+var fnAlias = map[*ssa.Function]string{}
+
+func aliasRole(fn *ssa.Function, pinned string) {
+	if fn != nil && fname(fn) != pinned {
+		fnAlias[fn] = pinned
+	}
+}
+
+// roleSigs: private methods that rules anchor on, identified by signature when their name changes.
+var roleSigs = map[string]string{
+	"actor.Registry.add":                        "(actor.Processer)()",
+	"actor.Registry.get":                        "(*actor.PID)(actor.Processer)",
+	"actor.Registry.getByID":                    "(string)(actor.Processer)",
+	"actor.Engine.sendPoisonPill":               "(context.Context,bool,*actor.PID)(context.Context)",
+	"remote.streamRouter.deliverStream":         "(*remote.streamDeliver)()",
+	"remote.streamRouter.handleTerminateStream": "(actor.RemoteUnreachableEvent)()",
+}
+
+func sigKey(s *types.Signature) string {
+	f := func(t *types.Tuple) string {
+		var xs []string
+		for i := 0; i < t.Len(); i++ {
+			xs = append(xs, types.TypeString(t.At(i).Type(), shortQ))
+		}
+		return "(" + strings.Join(xs, ",") + ")"
+	}
+	return f(s.Params()) + f(s.Results())
 }
 
 func (w *World) Func(pkg, name string) *ssa.Function {
@@ -273,6 +321,14 @@ func (w *World) fnPos(fn *ssa.Function) string {
 func fname(fn *ssa.Function) string {
 	if fn == nil {
 		return "<nil>"
+	}
+	if a, ok := fnAlias[fn]; ok {
+		return a
+	}
+	if p := fn.Parent(); p != nil {
+		if _, ok := fnAlias[rootFn(p)]; ok && strings.HasPrefix(fn.Name(), p.Name()) {
+			return fname(p) + strings.TrimPrefix(fn.Name(), p.Name())
+		}
 	}
 	s := fn.String()
 	s = strings.ReplaceAll(s, modPath+"/", "")
